@@ -30,6 +30,8 @@ def main():
         if r.returncode != 0:
             print(r.stdout); return 2
     sh("git checkout -q -- .", cwd=repo)
+    if not os.path.exists(os.path.join(repo, "Cargo.lock")):
+        shutil.copyfile("/repo/Cargo.lock", os.path.join(repo, "Cargo.lock"))      # the lock file is not tracked in /repo
     # a private snapshot of the whole framework, so that edits to /verif while the sweep runs cannot disturb it
     sv = os.path.join(S, "verif")
     os.makedirs(sv, exist_ok=True)
